@@ -123,11 +123,16 @@ CLAIMED["C18"] = dict(
     note=TRUST + "Not decided: the generated gRPC glue invoking the interceptor, event ordering across handler-driven stream calls, that installing options never changes the outcome as a two-run equivalence (only the nil-dereference instance in SendHeader).",
     ref="DESIGN.md sections 5 C18 and 10.3")
 
+CLAIMED["C19"] = dict(
+    text=("Partial proof of the per-node discipline of the selector trie: getRules collects a node's own (exact) rules only when the looked-up name ends at that node, and a node's wildcard rules only for names that continue below it "
+          "(so a selector that is a proper prefix of a method name, without wildcard, is not bound to the method, and pkg.Service.* does not match pkg.Service itself)."),
+    note=TRUST + "Two one-line clauses on getRules, written from the property statement; they decide the negative direction ('a rule must not leak') locally. Not decided: that setRules files every selector under the right node (its recursive closure calls itself through a captured variable and is abstracted), that a bound service-config rule behaves like an annotation (same addRule call in appendHandler, by inspection), the health service end to end.",
+    ref="DESIGN.md sections 5 C19 and 10.3")
+
 NA = {
     "C03": "round trip through encoding/json, protojson, base64, gzip and protobuf reflection: larking's share is a kind-dispatch table whose every arm delegates to a dependency; a contract would axiomatise the libraries, not decide the code (DESIGN 5 C03)",
     "C10": "observational equivalence of two systems over whole call histories, decided by grpc-go streams and two pump goroutines; the VC generator drops goroutines and no per-function contract expresses it (DESIGN 5 C10)",
     "C13": "pool reuse, goroutine lifetimes and data races are statements over schedules; no permission/ownership logic for sync.Pool hand-offs, go/sync are dropped by the generator (DESIGN 5 C13)",
-    "C19": "selector semantics is an algebra of dotted strings inside a self-recursive closure over a map-of-pointers trie; needs string/sequence theories the installed solvers handle poorly, second half is end-to-end over grpc's health server (DESIGN 5 C19)",
     "C20": "behaviour of net/http.ServeMux longest-pattern matching, http.StripPrefix and h2c; larking contributes a six-line loop without arithmetic (DESIGN 5 C20)",
 }
 
